@@ -173,7 +173,7 @@ func init() {
 		Prop{
 			ID: "C07",
 			Runs: []Run{
-				{Harness: "zzverif/zzh.ZZC07Scopes", Desc: "10 placements of an @ignore comment (before package clause, alone before func / type declaration, alone before a multi-line statement, alone before a struct field, alone before a local var declaration, trailing a statement, trailing an if-header, last in a body, trailing a struct field), any <= 2 of them active; query = ANY byte position of the file x 7 codes: Contains == documented extent", Bounds: map[string]interface{}{"skeleton": "c07Src", "placements": 11, "active_markers": "<= 2", "query_position": "every offset 0..len+2 (symbolic)"}},
+				{Harness: "zzverif/zzh.ZZC07Scopes", Desc: "10 placements of an @ignore comment (before package clause, alone before func / type declaration, alone before a multi-line statement, alone before a struct field, alone before a local var declaration, trailing a statement, trailing an if-header, last in a body, trailing a struct field), any <= 2 of them active; query = ANY byte position of the file x 7 codes: Contains == documented extent", Bounds: map[string]interface{}{"skeleton": "c07Src", "placements": 13, "active_markers": "<= 2", "query_position": "every offset 0..len+2 (symbolic)"}},
 				{Harness: "zzverif/zzh.ZZC07Spellings", Desc: "declaration placement with 9 code-list spellings (single, several + prose, category, ALL lower-case, unknown + trailing comma, other category, near-miss keywords)", Bounds: map[string]interface{}{"spellings": 9}},
 				{Harness: "zzverif/zzh.ZZC07SpellingsStmt", Desc: "statement placement with the 9 spellings", Bounds: map[string]interface{}{"spellings": 9}},
 				{Harness: "zzverif/zzh.ZZC07RereportField", Desc: "re-reporting when the first uses of the once-per-file type are a struct field and a parameter (trailing markers, 4x3 spellings)", Bounds: map[string]interface{}{"holes": 2}},
